@@ -41,8 +41,8 @@ type vfUpAnswer struct {
 	Proof     string
 	ProofZone string
 	answer    []dns.RR
-	ns      []dns.RR
-	extra   []dns.RR
+	ns        []dns.RR
+	extra     []dns.RR
 }
 
 func (a *vfUpAnswer) compile() {
@@ -235,6 +235,33 @@ type vfWorld struct {
 	cfg   *config.Config
 	done  func()
 	cache *cache.Cache
+	jobMu sync.Mutex
+	jobs  map[string][]*vfJob // idle wire-born transport jobs per protocol, reused from packet to packet as an engine's slabs are
+}
+
+// wireJob hands out this world's transport job for proto, re-addressed for the next packet. The engines keep a job's
+// strict-path storage (request, chain, deadline carrier, edns writer slot) from one packet to the next, whoever sent it.
+func (w *vfWorld) wireJob(proto string, local, remote net.Addr) *vfJob {
+	w.jobMu.Lock()
+	defer w.jobMu.Unlock()
+	if w.jobs == nil {
+		w.jobs = map[string][]*vfJob{}
+	}
+	var j *vfJob
+	if idle := w.jobs[proto]; len(idle) > 0 {
+		j, w.jobs[proto] = idle[len(idle)-1], idle[:len(idle)-1] // last in, first out, like the engines' slab caches
+	} else {
+		j = &vfJob{}
+	}
+	j.local, j.remote, j.wrote = local, remote, nil
+	return j
+}
+
+// parkJob returns a job whose packet has been served to the idle list.
+func (w *vfWorld) parkJob(proto string, j *vfJob) {
+	w.jobMu.Lock()
+	w.jobs[proto] = append(w.jobs[proto], j)
+	w.jobMu.Unlock()
 }
 
 func vfNewWorld(cfg *config.Config, up *vfUp) *vfWorld {
@@ -265,9 +292,10 @@ func (w *vfWorld) Ask(raw []byte, proto string, ip net.IP, port int, wire bool) 
 	local, remote := vfAddrs(proto, ip, port)
 	var r vfReply
 	if wire {
-		job := &vfJob{local: local, remote: remote}
+		job := w.wireJob(proto, local, remote)
 		r.Handled = w.s.ServeRaw(job, raw, time.Now())
 		r.Writes = job.wrote
+		w.parkJob(proto, job)
 	} else {
 		job := &vfPlain{local: local, remote: remote}
 		r.Handled = w.s.ServeRaw(job, raw, time.Now())
@@ -291,7 +319,7 @@ func (w *vfWorld) AskInline(raw []byte, ip net.IP, port int) (r vfReply, replaye
 		return w.Ask(raw, "udp", ip, port, true), false
 	}
 	local, remote := vfAddrs("udp", ip, port)
-	job := &vfJob{local: local, remote: remote}
+	job := w.wireJob("udp", local, remote)
 	at := time.Now()
 	r.Handled = w.s.ServeRawInline(job, raw, at)
 	if !r.Handled && len(job.wrote) == 0 {
@@ -299,6 +327,7 @@ func (w *vfWorld) AskInline(raw []byte, ip net.IP, port int) (r vfReply, replaye
 		r.Handled = w.s.ServeRawReplay(job, raw, at)
 	}
 	r.Writes = job.wrote
+	w.parkJob("udp", job)
 	if len(r.Writes) == 1 {
 		m := new(dns.Msg)
 		if err := m.Unpack(r.Writes[0]); err != nil {
